@@ -257,6 +257,21 @@ static int queue_count(struct urcu_workqueue *w, int mark)
 	return k;
 }
 
+/* 1 iff the chain from the head reaches the tail: no enqueue (of a user work or of a flush/completion work item,
+ * which this scenario does not count in in_queue_work) is between its xchg of the tail and its store of the link.
+ * While one is, nodes behind the gap are in the public queue but not reachable from the head, and nothing can be
+ * concluded from a walk. */
+static int queue_chain_complete(struct urcu_workqueue *w)
+{
+	struct cds_wfcq_node *n = &w->cbs_head.node;
+	while (n != w->cbs_tail.p) {
+		n = n->next;
+		if (!n)
+			return 0;
+	}
+	return 1;
+}
+
 static int unfinished_user_works(void)
 {
 	int i, k = 0;
@@ -386,7 +401,7 @@ static void check_quiescent(const char *when)
 	unsigned long fl = wq->flags;
 	if (!(fl & URCU_WORKQUEUE_PAUSED))
 		vrt_fail("pause", "%s: PAUSED is not set (flags=%lu)", when, fl);
-	if (!in_queue_work) {
+	if (!in_queue_work && queue_chain_complete(wq)) {
 		int q = queue_count(wq, 0), u = unfinished_user_works();
 		/* completion work items of flushes in progress are in the queue too: q >= u always; what must not
 		 * happen is an unfinished work that is NOT in the public queue */
